@@ -25,7 +25,8 @@ OUT = tlc.OUT
 SCRATCH = os.path.join(OUT, "configmerge")
 INV = ["MostAuthoritativeWins", "InvalidStopsStartup", "ValidStarts"]
 DEVS = {"EnvBeforeFile": "MostAuthoritativeWins", "CliIfDifferent": "MostAuthoritativeWins",
-        "SwallowInvalid": "InvalidStopsStartup", "EnvFileIgnored": "MostAuthoritativeWins"}
+        "SwallowInvalid": "InvalidStopsStartup", "EnvFileIgnored": "MostAuthoritativeWins",
+        "ReloadKeepsValues": "MostAuthoritativeWins"}
 NPROC = 8
 
 
@@ -38,7 +39,7 @@ def design(ctx):
                       properties=["UnmentionedUntouched"], constraints=["LevelBound"])
         return label, tlc.run("ConfigMerge", path, name="ConfigMerge_" + label, workers=2, timeout=600)
     jobs = [("design", set())] + [("dev_" + d, {d}) for d in DEVS]
-    with ThreadPoolExecutor(max_workers=5) as ex:
+    with ThreadPoolExecutor(max_workers=6) as ex:
         res = list(ex.map(one, jobs))
     for label, r in res:
         if label == "design":
